@@ -1,6 +1,28 @@
 """Texts of MANIFEST.json checks: (level text, level note, technique, DESIGN section)."""
 T = "machine-checked proof (Lean 4) + regenerated facts + model/implementation correspondence"
 TEXT = {
+ "C01": ("Lean theorems: for all six kinds MarshalCBOR's output is decoded back to the same wire array (tag/prefix stripping proved); protected, payload/ciphertext and signature/tag come back byte for byte; "
+         "a COSE_Sign1 / COSE_Mac0 produced with default headers verifies under any verifier correct for the signer and yields the original payload, for every payload, external data, key and unprotected map. "
+         "The model is tied to the library by byte-exact produce + consume correspondence over 6 kinds x 24 algorithms x 3 tag forms",
+         "signature correctness assumed (cross-checked by Lean ECDSA/Ed25519); general header maps, typed payloads, Sign/Mac/Encrypt with recipients by correspondence only", T, "7.1"),
+ "C02": ("Lean theorems: verification soundness (success implies the primitive accepted exactly the RFC 9052 structure of the received protected/payload bytes and caller's external data), injectivity of the structure "
+         "(tampering = forgery), kind change changes the bytes, zero signatures / unmatched kid / any failing signature reject. Executable model with Lean primitives predicts the verdict of every mutated message in the run",
+         "unforgeability of the primitives assumed", T, "7.2"),
+ "C03": ("Lean theorems: decrypt soundness (success implies the AEAD opened the received ciphertext under the nonce derived from the received headers with AAD = RFC 9052 Enc_structure), AAD injectivity, "
+         "payload untouched on every failure; with C12's uniqueness an accepted change is a tag forgery. Mutation run with payload inspection after failed Decrypt",
+         "AEAD security assumed", T, "7.3"),
+ "C04": ("Lean theorems over the toSign/toMac/toEnc literals extracted from the source on every run: each equals the RFC 9052 Sig_/MAC_/Enc_structure for all protected, payload and external values (nil/empty/any), contexts distinct, "
+         "structure injective. Recording wrappers show the library hands exactly these bytes to the primitives on produce and verify, incl. non-canonical peer encodings of protected buckets (verbatim use)",
+         "RFC 9052 reading trusted; extractor recogniser trusted", T, "7.4"),
+ "C05": ("Lean theorems: a protected alg different from the key's is refused on every entry point whatever the primitive would answer (result independent of the primitive), for any Go integer kind; unreadable values count as 0 "
+         "and no accepted key has algorithm 0; nil headers record key alg and kid. Correspondence over ordered algorithm pairs incl. pairs sharing key bytes",
+         "message model tied by correspondence", T, "7.5"),
+ "C06": ("Lean theorems on the nonce logic: caller IV verbatim; IV+Partial IV, Partial IV >= nonce size, missing Base IV refused; xor = RFC 9052 context IV xor left-padded Partial IV; derived nonce has the nonce length; "
+         "never panics (the >= guard keeps the slice in range); random nonce is published in header 5; each encryption consumes its own block of the random stream. Recording Encryptor correspondence",
+         "crypto/rand quality not a theorem", T, "7.6"),
+ "C09": ("Lean theorems: re-encoding a decoded COSE_Sign1/COSE_Mac0 preserves protected, payload and signature/tag bytes, hence the verdict; COSE_Signature re-encodes its received bucket verbatim; RemoveCBORTag removes only the tag; "
+         "prefix bytes and tag numbers regenerated from the source. Chains decode->encode->decode->verify on library-produced and foreign messages by correspondence",
+         "value round trips of maps/recipients/KDF contexts by correspondence", T, "7.9"),
  "C08": ("Lean theorems about the CBOR model for values of any size and depth: decode(encode v ++ r) = (v, r) (hence injective, prefix-free, accepted back), "
          "encoding independent of map entry order and of Go integer kind, shortest heads, sorted keys; decoder rejects indefinite lengths, duplicate keys "
          "(by value) at any depth, trailing bytes, out-of-range / ill-typed labels. Encoder/decoder options regenerated from key/cbor.go. "
@@ -30,4 +52,4 @@ TEXT = {
          "machine-checked proof (Lean 4, decide over the regenerated finite table)", "7.20"),
 }
 NOT_APPLICABLE = {}
-NOTES = ("fix commits in /repo (see known_findings.txt): b32a1c8 C20, f9d61de C18, e2fa843 C07/C05/C16, bb7f051 C13, 1fd4391 C07/C11, 9daab84 C12, 2768256 C07/C12")
+NOTES = ("D7 13bd68c, D8 78a38ed, D6 0f6756f; " +"fix commits in /repo (see known_findings.txt): b32a1c8 C20, f9d61de C18, e2fa843 C07/C05/C16, bb7f051 C13, 1fd4391 C07/C11, 9daab84 C12, 2768256 C07/C12")
